@@ -57,6 +57,11 @@ type pathRec struct {
 	W int64   `json:"w"`
 }
 
+type selfRec struct {
+	P []int64 `json:"p"`
+	W ext     `json:"w"`
+}
+
 type yenRec struct {
 	S   int   `json:"s"`
 	T   int   `json:"t"`
@@ -76,6 +81,8 @@ type gcase struct {
 	AnyNeg      bool          `json:"anyneg"`
 	NegEdgeFrom []bool        `json:"negedgefrom"`
 	AnyNegEdge  bool          `json:"anynegedge"`
+	Src         []int         `json:"src"`        // src[s-1]: the node From() of a tree for source s must return
+	SelfAbsent  []selfRec     `json:"selfabsent"` // legal answers of Between(a, a) for the absent id a
 	Sink        []bool        `json:"sink"`
 	ZCyc        bool          `json:"zcyc"` // the graph has a zero-weight cycle
 	SP          [][][][]int64 `json:"sp"`
@@ -116,6 +123,8 @@ type checker struct {
 	kind  string
 	view  string
 	fails int
+	fromQ int // From() answers judged
+	selfQ int // answers to a -> a on the absent id judged
 }
 
 func (k *checker) fail(routine, what, f string, a ...any) {
@@ -269,6 +278,51 @@ func (k *checker) checkUnique(routine string, s, t int, unique bool) {
 	}
 }
 
+// checkFrom judges Shortest.From / ShortestAlts.From of the tree returned for source s by looking
+// up the spec's src table ("the starting node of the paths held by" the tree).
+func (k *checker) checkFrom(routine string, s int, from func() graph.Node) {
+	if len(k.c.Src) < s {
+		return // a case file printed before the table existed
+	}
+	n := from() // a getter; a panic in it is caught by the watchdog of the graph run
+	k.fromQ++
+	if n == nil {
+		k.fail(routine, "from", "From() of the tree for source %d is nil, spec: node %d", s, k.c.Src[s-1])
+		return
+	}
+	if m, ok := k.r2m[n.ID()]; !ok || int(m) != k.c.Src[s-1] {
+		k.fail(routine, "from", "From() of the tree for source %d has id %d (model node %d), spec: node %d (id %d)", s, n.ID(), m, k.c.Src[s-1], k.real(k.c.Src[s-1]))
+	}
+}
+
+// checkSelfAbsent judges one answer (paths, weight) to a query a -> a on the absent id a: it must be
+// one of the spec's legal answers (selfabsent), and the nodes of a returned path must carry the
+// queried id (this is where the package's own node type is handed out).
+func (k *checker) checkSelfAbsent(routine string, a int, ps [][]graph.Node, w float64) {
+	if len(k.c.SelfAbsent) == 0 {
+		return
+	}
+	k.selfQ++
+	if len(ps) > 1 {
+		k.fail(routine, "self-absent", "%d paths returned for %d->%d on an id that is not in the graph", len(ps), a, a)
+		return
+	}
+	var mp []int64
+	if len(ps) == 1 {
+		var ok bool
+		if mp, ok = k.models(ps[0]); !ok || len(mp) == 0 {
+			k.fail(routine, "self-absent", "%d->%d on an id that is not in the graph returned the path %v with a nil or foreign node", a, a, ps[0])
+			return
+		}
+	}
+	for _, r := range k.c.SelfAbsent {
+		if key(r.P) == key(mp) && len(r.P) == len(mp) && sameW(w, r.W) {
+			return
+		}
+	}
+	k.fail(routine, "self-absent", "%d->%d on an id that is not in the graph returned (path %v, weight %v); the legal answers are %v", a, a, mp, w, k.c.SelfAbsent)
+}
+
 const callLimit = 60 * time.Second
 
 // run calls f under the watchdog; an unexpected panic or hang is a failure.
@@ -318,6 +372,7 @@ func (k *checker) singleSource(tg tgraph) {
 		// ---- DijkstraFrom
 		var sh path.Shortest
 		if ok, pan := k.run("DijkstraFrom", negEdge, func() { sh = path.DijkstraFrom(sn, tg) }); ok {
+			k.checkFrom("DijkstraFrom", s, func() graph.Node { return sh.From() })
 			if negEdge {
 				k.fail("DijkstraFrom", "nopanic", "source %d reaches a negative edge but DijkstraFrom did not panic", s)
 			} else {
@@ -365,6 +420,7 @@ func (k *checker) singleSource(tg tgraph) {
 		// ---- DijkstraAllFrom
 		var sa path.ShortestAlts
 		if ok, _ := k.run("DijkstraAllFrom", negEdge, func() { sa = path.DijkstraAllFrom(sn, tg) }); ok {
+			k.checkFrom("DijkstraAllFrom", s, func() graph.Node { return sa.From() })
 			if negEdge {
 				k.fail("DijkstraAllFrom", "nopanic", "source %d reaches a negative edge but DijkstraAllFrom did not panic", s)
 			} else {
@@ -375,6 +431,7 @@ func (k *checker) singleSource(tg tgraph) {
 		// ---- BellmanFordFrom
 		var bok bool
 		if ok, _ := k.run("BellmanFordFrom", false, func() { sh, bok = path.BellmanFordFrom(sn, tg) }); ok {
+			k.checkFrom("BellmanFordFrom", s, func() graph.Node { return sh.From() })
 			if bok == negCyc {
 				k.fail("BellmanFordFrom", "negcycle-flag", "source %d: ok=%v but the spec says negative cycle reachable=%v", s, bok, negCyc)
 			} else if bok {
@@ -400,6 +457,7 @@ func (k *checker) singleSource(tg tgraph) {
 
 		// ---- BellmanFordAllFrom
 		if ok, _ := k.run("BellmanFordAllFrom", false, func() { sa, bok = path.BellmanFordAllFrom(sn, tg) }); ok {
+			k.checkFrom("BellmanFordAllFrom", s, func() graph.Node { return sa.From() })
 			if bok == negCyc {
 				k.fail("BellmanFordAllFrom", "negcycle-flag", "source %d: ok=%v but the spec says negative cycle reachable=%v", s, bok, negCyc)
 			} else if bok {
@@ -433,6 +491,7 @@ func (k *checker) singleSource(tg tgraph) {
 					name := []string{"AStar(nil)", "AStar(null)", "AStar(half)"}[hi]
 					var as path.Shortest
 					if ok, _ := k.run(name, false, func() { as, _ = path.AStar(sn, tn, tg, h) }); ok {
+						k.checkFrom(name, s, func() graph.Node { return as.From() })
 						p, w := as.To(tn.ID())
 						k.checkOne(name, s, t, p, w)
 					}
@@ -515,6 +574,31 @@ func (k *checker) allPairs() {
 		for _, s := range k.queries() {
 			for _, t := range k.queries() {
 				if s == t && !k.present(s) {
+					// the answer is left open by the documentation: one of the spec's legal answers
+					aid := k.real(s)
+					var p []graph.Node
+					var w float64
+					if ok, _ := k.run(routine+".Between", false, func() { p, w, _ = ap.Between(aid, aid) }); ok {
+						var ps [][]graph.Node
+						if p != nil {
+							ps = [][]graph.Node{p}
+						}
+						k.checkSelfAbsent(routine+".Between", s, ps, w)
+					}
+					var ps [][]graph.Node
+					if ok, _ := k.run(routine+".AllBetween", false, func() { ps, w = ap.AllBetween(aid, aid) }); ok {
+						k.checkSelfAbsent(routine+".AllBetween", s, ps, w)
+					}
+					var fs [][]graph.Node
+					if ok, _ := k.run(routine+".AllBetweenFunc", false, func() {
+						ap.AllBetweenFunc(aid, aid, func(p []graph.Node) { fs = append(fs, append([]graph.Node(nil), p...)) })
+					}); ok {
+						fw := math.Inf(1) // AllBetweenFunc reports no weight: a path handed to fn is the trivial one
+						if len(fs) > 0 {
+							fw = 0
+						}
+						k.checkSelfAbsent(routine+".AllBetweenFunc", s, fs, fw)
+					}
 					continue
 				}
 				sid, tid := k.real(s), k.real(t)
@@ -827,6 +911,8 @@ func oneCase(b []byte, lineNo int, kinds, views []string, idsets [][]int64, sum 
 				}
 				sum.Count("graph-runs", 1)
 			}
+			sum.Count("from-queries", k.fromQ)
+			sum.Count("self-absent-queries", k.selfQ)
 			if kind == "matrix" {
 				break
 			}
